@@ -206,6 +206,12 @@ func (d *deepCtx) active(f *ssa.Function) bool {
 // cut or panics does not return, so the code after the call is not reached
 // through it.
 func deepReach(fn *ssa.Function, cut edgeSet, isTarget func(ssa.Instruction) bool) ssa.Instruction {
+	return deepReachFrom(fn, fn.Blocks[0], cut, isTarget)
+}
+
+// deepReachFrom: like deepReach, starting at block start of fn (e.g. a loop
+// head, with the back edges in cut, for per-iteration rules).
+func deepReachFrom(fn *ssa.Function, start *ssa.BasicBlock, cut edgeSet, isTarget func(ssa.Instruction) bool) ssa.Instruction {
 	type pos struct {
 		ctx string
 		b   *ssa.BasicBlock
@@ -262,7 +268,7 @@ func deepReach(fn *ssa.Function, cut edgeSet, isTarget func(ssa.Instruction) boo
 		}
 	}
 	root := &deepCtx{fn: fn}
-	run(root, fn.Blocks[0], 0, nil)
+	run(root, start, 0, nil)
 	return found
 }
 
